@@ -375,7 +375,7 @@ Proof.
     + same3 i (upd_pc x PNone).
     + pose proof HI as (C & LL & _). rewrite El in LL. cbn in LL.
       assert (C' : chain (w_lockhist w ++ [(c0, [])])).
-      { rewrite LL. cbn [app]. apply chain_single. split; reflexivity. }
+      { rewrite LL. cbn [app]. apply chain_single. split; [reflexivity|]. split; [reflexivity|apply idx_ok_nil]. }
       assert (Sm' : small_hist (w_lockhist w ++ [(c0, [])])).
       { apply small_hist_app; [assumption|]. intros c1 l1 [X|[]]. inversion X; subst. reflexivity. }
       assert (Rec : forall c1 l1, In (c1, l1) [(c0, @nil sleaf)] -> recoverable (w_store w) c1 l1).
